@@ -146,7 +146,13 @@ fn shapes_case<T: Sc>(rng: &mut Rng, case: u64, out: &mut CaseOut, orders: usize
         2 => Some(n),
         _ => Some(rng.int(0, 13)),
     };
-    let w: Option<Vec<f64>> = wlen.map(|l| (0..l).map(|_| rng.range(0.2, 2.0) * rng.sign()).collect());
+    // weight values: random, or all exactly 1, or one constant (a vector of ones is still a vector with a length)
+    let wvals = rng.below(4);
+    let wconst = rng.range(0.2, 2.0) * rng.sign();
+    let w: Option<Vec<f64>> = wlen.map(|l| (0..l).map(|_| match wvals { 0 => 1.0, 1 => wconst, _ => rng.range(0.2, 2.0) * rng.sign() }).collect());
+    if wlen.is_some() {
+        out.seen("weight_values", ["all ones", "constant", "random", "random"][wvals]);
+    }
     let eps = match rng.below(4) {
         0 => None,
         1 => Some(rng.logrange(1e-12, 1e-2)),
@@ -348,7 +354,7 @@ fn threshold_case<T: Sc>(rng: &mut Rng, case: u64, out: &mut CaseOut) {
 }
 
 pub fn run(ctx: &Ctx) {
-    ctx.rule("shapes-and-orders: exhaustive grid model length 0..12 x Y rows 0..12 x columns 0..4 (1 for the single right-hand-side constructors) x weights {absent, len=rows, len=model length, other 0..13} x the four constructors (new, mrhs, new_parallel, mrhs_parallel), each with 3 (quick) / 8 (thorough) call orders (permutations of observations/weights/epsilon and repetitions whose earlier values must be overwritten), occasionally without any observations call; verdict Ok <=> the specification's set of violated requirements is empty, Err(kind) => kind in the set, and an InvalidLengthOfData error must carry the model's output length and the row count of the observations in effect; accepted problems: params() == model's initial parameters (bitwise), residuals/coefficients present, identical to an explicit set_params(initial), identical across call orders (bitwise, incl. weighted data). threshold: one-column model with singular value exactly s / one ulp above: epsilon(±s), no call (machine epsilon), repeated calls (last wins). non-trivial = accepted problems and rejections with exactly one violated requirement");
+    ctx.rule("shapes-and-orders: exhaustive grid model length 0..12 x Y rows 0..12 x columns 0..4 (1 for the single right-hand-side constructors) x weights {absent, len=rows, len=model length, other 0..13; values random / all exactly 1 / constant} x the four constructors (new, mrhs, new_parallel, mrhs_parallel), each with 3 (quick) / 8 (thorough) call orders (permutations of observations/weights/epsilon and repetitions whose earlier values must be overwritten), occasionally without any observations call; verdict Ok <=> the specification's set of violated requirements is empty, Err(kind) => kind in the set, and an InvalidLengthOfData error must carry the model's output length and the row count of the observations in effect; accepted problems: params() == model's initial parameters (bitwise), residuals/coefficients present, identical to an explicit set_params(initial), identical across call orders (bitwise, incl. weighted data). threshold: one-column model with singular value exactly s / one ulp above: epsilon(±s), no call (machine epsilon), repeated calls (last wins). non-trivial = accepted problems and rejections with exactly one violated requirement");
     *ctx.exhaustive.lock().unwrap() = Some(true);
     let t = ctx.tier;
     let orders = t.pick(3, 16);
